@@ -10,13 +10,18 @@ import importlib
 import json
 import warnings
 
+import base64
+import pickle
+
+import c13_lit
 import vcomp
+from c13_lit import canon, pyval
 from lenskit.data import ItemList
 from lenskit.diagnostics import PipelineError, PipelineWarning
 from lenskit.pipeline import Pipeline, PipelineBuilder, predict_pipeline, topn_pipeline
 from lenskit.pipeline.common import RecPipelineBuilder
 from lenskit.pipeline.components import fallback_on_none
-from lenskit.pipeline.config import PipelineComponent
+from lenskit.pipeline.config import PipelineComponent, PipelineConfig
 from lenskit.pipeline.nodes import ComponentNode
 from pydantic import ValidationError
 
@@ -34,6 +39,8 @@ COMPS = {
     "anyval": vcomp.anyval, "twice": vcomp.Box.twice, "first_of": fallback_on_none,
     "Scale": vcomp.Scale, "Affine": vcomp.Affine, "Aliased": vcomp.Aliased, "NoSettings": vcomp.NoSettings,
     "Shift": vcomp.Box.Shift, "Bare": vcomp.Bare,
+    "describe": c13_lit.describe, "describe2": c13_lit.describe2, "lookup": c13_lit.lookup, "extend": c13_lit.extend,
+    "total": c13_lit.total,
 }
 
 
@@ -49,18 +56,6 @@ def err_code(e):
     if isinstance(e, ValueError):
         return 1
     raise e
-
-
-def pyval(v):
-    if isinstance(v, dict) and "__tuple__" in v:
-        return tuple(pyval(x) for x in v["__tuple__"])
-    if isinstance(v, dict) and "__token__" in v:
-        return vcomp.Token(v["__token__"])
-    if isinstance(v, dict):
-        return {k: pyval(x) for k, x in v.items()}
-    if isinstance(v, list):
-        return [pyval(x) for x in v]
-    return v
 
 
 def load_obj(code):
@@ -102,7 +97,9 @@ def lit_info(b, name):
     if not isinstance(n, LiteralNode):
         return None
     rep = PipelineLiteral.represent(n.value)
-    return {"name": name, "enc": rep.encoding, "value": rep.value}
+    # "pk": the base85 pickle text of the value, computed here (not taken from lenskit)
+    return {"name": name, "enc": rep.encoding, "value": rep.value,
+            "pk": base64.b85encode(pickle.dumps(n.value)).decode("ascii")}
 
 
 def resolve_ins(b, ins):
@@ -232,9 +229,7 @@ def run_all(p: Pipeline, runs, targets):
         for t in targets:
             try:
                 v = p.run(**kw) if t is None else p.run(t, **kw)
-                if isinstance(v, (vcomp.Token, vcomp.Outer.Inner)):
-                    v = f"{type(v).__qualname__}({v.v})"
-                row.append(v if isinstance(v, (int, str)) or v is None else type(v).__name__)
+                row.append(canon(v))
             except Exception as e:
                 row.append("!" + type(e).__name__)
         out.append(row)
@@ -274,31 +269,100 @@ def build_std(case):
     return rb.build(case.get("name"))
 
 
+def _track(expect, b, op, r):
+    """which literal value each (component, parameter) was last given, followed through the history of the builder
+    (only what the case description itself says; forgotten whenever an operation failed half-way)"""
+    kind = op["op"]
+    if kind not in ("add", "replace", "connect", "clear"):
+        return
+    try:
+        real = b.node(op["name"]).name
+    except Exception:
+        real = op["name"]
+    if kind in ("replace", "clear") or r["err"]:
+        for k in [k for k in expect if k[0] == real]:
+            del expect[k]
+    if r["err"] or kind == "clear":
+        return
+    for param, t in op["ins"]:
+        if "lit" in t:
+            expect[(real, param)] = t["lit"]
+        else:
+            expect.pop((real, param), None)
+
+
+def literal_checks(p: Pipeline, expect):
+    """public-interface checks of the literal nodes of a built pipeline:
+    delivery -- the node wired to (component, parameter) yields the value the caller passed, type included;
+    faithful -- a literal the document declares as JSON means, as JSON text, the value the pipeline holds"""
+    out = {"delivery": [], "faithful": [], "n": 0}
+    for (comp, param), e in sorted(expect.items()):
+        try:
+            node = p.node_input_connections(comp).get(param)
+        except Exception:
+            continue
+        if node is None:
+            continue
+        out["n"] += 1
+        want, got = canon(pyval(e)), canon(p.run(node.name))
+        if want != got:
+            out["delivery"].append([comp, param, want, got])
+    doc = json.loads(p.config.model_dump_json())
+    for name, lit in doc["literals"].items():
+        if lit["encoding"] == "json":
+            held, meant = canon(p.run(name)), canon(lit["value"])
+            if held != meant:
+                out["faithful"].append([name, held, meant])
+    return out
+
+
 def produce(case, ops_key="ops"):
     "build the pipeline of a case in this process"
     if case["kind"] == "std":
         p, err, _ = guarded(lambda: build_std(case))
         return {"ops": []}, p, err
     b = PipelineBuilder(name=case.get("name"), version=case.get("version"))
-    results = [apply_op(b, op) for op in case[ops_key]]
+    results, expect = [], {}
+    for op in case[ops_key]:
+        r = apply_op(b, op)
+        _track(expect, b, op, r)
+        results.append(r)
     p, err, _ = guarded(b.build)
-    return {"ops": results}, p, err
+    out = {"ops": results}
+    if p is not None:
+        out["literal_checks"] = literal_checks(p, expect)
+    return out, p, err
+
+
+# every way of rebuilding a pipeline from its configuration inside one process
+ROUTES = {
+    "clone": lambda p, js: p.clone(),
+    "reobj": lambda p, js: Pipeline.from_config(p.config),                                 # the configuration object
+    "rejson": lambda p, js: Pipeline.from_config(json.loads(js)),                          # JSON text -> dict
+    "revalidate": lambda p, js: Pipeline.from_config(PipelineConfig.model_validate_json(js)),   # JSON text -> model
+}
 
 
 def observe(case, docs):
     out, p, err = produce(case)
     targets = [None] + list(case.get("run_nodes", []))
     out["built"] = observe_pipeline(p, err, case, targets)
+    if "literal_checks" in out:
+        out["built"]["literal_checks"] = out.pop("literal_checks")
     if case.get("ops2") is not None:
         o2, p2, err2 = produce(case, "ops2")
         out["ops2"] = o2["ops"]
         out["built2"] = observe_pipeline(p2, err2, case, targets)
+    if case.get("ops3") is not None:
+        # the same history with ONE literal replaced by a value of another type
+        o3, p3, err3 = produce(case, "ops3")
+        out["ops3"] = [r["err"] for r in o3["ops"]]
+        out["built3"] = {"err": err3} if p3 is None else {"err": 0, "hash": p3.config_hash, "runs": run_all(p3, case.get("runs", []), targets)}
     if p is not None:
-        q, e, w = guarded(p.clone)
-        out["clone"] = {**observe_pipeline(q, e, case, targets), "warn": w}
         js = out["built"]["js_full"]
-        q, e, w = guarded(lambda: Pipeline.from_config(json.loads(js)))
-        out["rejson"] = {**observe_pipeline(q, e, case, targets), "warn": w}
+        for route, make in ROUTES.items():
+            q, e, w = guarded(lambda: make(p, js))
+            out[route] = {**observe_pipeline(q, e, case, targets), "warn": w}
         # the builder-level entry point must agree with the pipeline-level one
         bq, e, w = guarded(lambda: PipelineBuilder.from_config(json.loads(js)))
         out["builder_from_config"] = {"err": e, "warn": w, "hash": (bq.config_hash() if bq is not None else None),
